@@ -45,6 +45,15 @@ structure ItState where
   date : Day
   sched : List TimeRange
 
+/-- What the time-domain iterator needs from the day level: the tiled schedule of a day, the
+next-change hint, and the interval-size bound.  The iterator functions below are written against
+this record so that their correctness (C02 Layer A) is proved once for *any* day level that meets
+`EnvOK`; the concrete one is `envOf ctx e`. -/
+structure Env where
+  sched : Int → M (List TimeRange)
+  hint : Int → M (Option Int)
+  bound : Option Int
+
 /-- `schedule_at(date).into_iter()` collected; the `pre_yield` assert is a panic site -/
 def daySchedule (ctx : Ctx) (e : Expr) (d : Day) : M (List TimeRange) :=
   match scheduleAt ctx e d with
@@ -53,11 +62,13 @@ def daySchedule (ctx : Ctx) (e : Expr) (d : Day) : M (List TimeRange) :=
     let r := Schedule.iterFull s
     if r.2 then .error "schedule.rs:IntoIter::pre_yield infinite loop detected" else .ok r.1
 
+def envOf (ctx : Ctx) (e : Expr) : Env := ⟨daySchedule ctx e, nextChangeHint ctx e, ctx.bound⟩
+
 /-- `TimeDomainIterator::new` -/
-def itNew (ctx : Ctx) (e : Expr) (start stop : Instant) : M ItState :=
+def itNew (env : Env) (start stop : Instant) : M ItState :=
   let d := instDay start
   let tm := instMinuteOfDay start
-  match daySchedule ctx e d with
+  match env.sched d with
   | .error p => .error p
   | .ok s =>
     let s := if start ≥ stop then [] else s
@@ -67,7 +78,7 @@ def itNew (ctx : Ctx) (e : Expr) (start stop : Instant) : M ItState :=
 def limitDay (endDay : Day) : Day := max (endDay + 1) dateEnd
 
 /-- `consume_until_next_kind` -/
-def consume (ctx : Ctx) (e : Expr) (endDay startDate : Day) (kind : Kind) (st : ItState) : M ItState :=
+def consume (env : Env) (endDay startDate : Day) (kind : Kind) (st : ItState) : M ItState :=
   match hs : st.sched with
   | [] => .ok st
   | tr :: rest =>
@@ -75,7 +86,7 @@ def consume (ctx : Ctx) (e : Expr) (endDay startDate : Day) (kind : Kind) (st : 
     else
       -- `if self.curr_date - start_date > max_interval_size + TimeDelta::days(1) { return }`
       let boundHit : M Bool :=
-        match ctx.bound with
+        match env.bound with
         | none => .ok false
         | some b =>
           if b + nsPerDay > deltaMax ∨ b + nsPerDay < -deltaMax then .error "opening_hours.rs:consume TimeDelta + TimeDelta overflowed"
@@ -85,9 +96,9 @@ def consume (ctx : Ctx) (e : Expr) (endDay startDate : Day) (kind : Kind) (st : 
       | .ok true => .ok st
       | .ok false =>
         match hr : rest with
-        | _ :: _ => consume ctx e endDay startDate kind ⟨st.date, rest⟩
+        | _ :: _ => consume env endDay startDate kind ⟨st.date, rest⟩
         | [] =>
-          match nextChangeHint ctx e st.date with
+          match env.hint st.date with
           | .error p => .error p
           | .ok h =>
             match (match h with | some x => some x | none => succ? st.date) with
@@ -95,9 +106,9 @@ def consume (ctx : Ctx) (e : Expr) (endDay startDate : Day) (kind : Kind) (st : 
             | some nd =>
               if hgt : nd > st.date then
                 if hle : nd ≤ endDay ∧ nd < dateEnd then
-                  match daySchedule ctx e nd with
+                  match env.sched nd with
                   | .error p => .error p
-                  | .ok s => consume ctx e endDay startDate kind ⟨nd, s⟩
+                  | .ok s => consume env endDay startDate kind ⟨nd, s⟩
                 else .ok ⟨nd, []⟩
               else .error "opening_hours.rs:consume infinite loop detected"
 termination_by ((limitDay endDay - st.date).toNat, st.sched.length)
@@ -116,7 +127,7 @@ def clockMinute (m : Nat) : M Nat :=
   if m < 1440 then .ok m else .error "opening_hours.rs:next got invalid time from schedule"
 
 /-- `TimeDomainIterator::next` -/
-def itNext (ctx : Ctx) (e : Expr) (stop : Instant) (st : ItState) : M (Option (Interval × ItState)) :=
+def itNext (env : Env) (stop : Instant) (st : ItState) : M (Option (Interval × ItState)) :=
   match st.sched with
   | [] => .ok none
   | tr :: _ =>
@@ -124,7 +135,7 @@ def itNext (ctx : Ctx) (e : Expr) (stop : Instant) (st : ItState) : M (Option (I
     | .error p => .error p
     | .ok sm =>
       let start := mkInstant st.date sm
-      match consume ctx e (instDay stop) st.date tr.kind st with
+      match consume env (instDay stop) st.date tr.kind st with
       | .error p => .error p
       | .ok st' =>
         let endTime := match st'.sched with | t :: _ => t.s | [] => 0
@@ -132,7 +143,7 @@ def itNext (ctx : Ctx) (e : Expr) (stop : Instant) (st : ItState) : M (Option (I
         | .error p => .error p
         | .ok em =>
           let stop' := min stop (mkInstant st'.date em)
-          match ctx.bound with
+          match env.bound with
           | some b =>
             if stop' - start > b then .ok (some (⟨start, instEnd, tr.kind, tr.comments⟩, st'))
             else .ok (some (⟨start, stop', tr.kind, tr.comments⟩, st'))
@@ -144,37 +155,43 @@ def itMeasure (endDay : Day) (st : ItState) : Nat :=
 /-- `iter_range_naive(from, to)` collected: `take_while(start < to)` and clipping.  The Rust
 iterator is an unbounded loop around `next`; the model refuses to continue (`.error`) if a step
 makes no progress, which is how an endless iteration of the real code shows up here. -/
-def collect (ctx : Ctx) (e : Expr) (frm to : Instant) (st : ItState) (acc : List Interval) : M (List Interval) :=
-  match itNext ctx e to st with
+def collect (env : Env) (frm to : Instant) (st : ItState) (acc : List Interval) : M (List Interval) :=
+  match itNext env to st with
   | .error p => .error p
   | .ok none => .ok acc.reverse
   | .ok (some (iv, st')) =>
     if iv.start ≥ to then .ok acc.reverse
     else if h : itMeasure (instDay to) st' < itMeasure (instDay to) st then
-      collect ctx e frm to st' (⟨max iv.start frm, min iv.stop to, iv.kind, iv.comments⟩ :: acc)
+      collect env frm to st' (⟨max iv.start frm, min iv.stop to, iv.kind, iv.comments⟩ :: acc)
     else .error "model: iterator made no progress (unbounded iteration)"
 termination_by itMeasure (instDay to) st
 
-def iterRangeNaive (ctx : Ctx) (e : Expr) (frm to : Instant) : M (List Interval) :=
+def iterRangeG (env : Env) (frm to : Instant) : M (List Interval) :=
   let frm := min instEnd frm
   let to := min instEnd to
-  match itNew ctx e frm to with
+  match itNew env frm to with
   | .error p => .error p
-  | .ok st => collect ctx e frm to st []
+  | .ok st => collect env frm to st []
+
+def iterRangeNaive (ctx : Ctx) (e : Expr) (frm to : Instant) : M (List Interval) :=
+  iterRangeG (envOf ctx e) frm to
 
 /-- first item of `iter_range_naive(from, to)` only (what `state` and `next_change` consume) -/
-def firstInterval (ctx : Ctx) (e : Expr) (frm to : Instant) : M (Option Interval) :=
+def firstIntervalG (env : Env) (frm to : Instant) : M (Option Interval) :=
   let frm := min instEnd frm
   let to := min instEnd to
-  match itNew ctx e frm to with
+  match itNew env frm to with
   | .error p => .error p
   | .ok st =>
-    match itNext ctx e to st with
+    match itNext env to st with
     | .error p => .error p
     | .ok none => .ok none
     | .ok (some (iv, _)) =>
       if iv.start ≥ to then .ok none
       else .ok (some ⟨max iv.start frm, min iv.stop to, iv.kind, iv.comments⟩)
+
+def firstInterval (ctx : Ctx) (e : Expr) (frm to : Instant) : M (Option Interval) :=
+  firstIntervalG (envOf ctx e) frm to
 
 /-- `OpeningHours::state` -/
 def state (ctx : Ctx) (e : Expr) (t : Instant) : M Kind :=
